@@ -5,7 +5,7 @@ WT=/tmp/seedrun_$$
 git -C /repo worktree add --detach $WT HEAD >/dev/null 2>&1
 git -C $WT apply $P || { echo "patch does not apply"; git -C /repo worktree remove --force $WT; exit 2; }
 for id in "$@"; do
-  out=$(REPO=$WT timeout 3000 /verif/bin/vcheck $id --tier ${TIER:-quick} 2>&1); rc=$?
+  out=$(VERIF_EVIDENCE_DIR=/tmp/seed_evidence REPO=$WT timeout 3000 /verif/bin/vcheck $id --tier ${TIER:-quick} 2>&1); rc=$?
   echo "== $id rc=$rc"; echo "$out" | grep -v "^KNOWN-FINDING" | tail -6 | cut -c1-400
 done
 git -C /repo worktree remove --force $WT >/dev/null 2>&1
